@@ -3,7 +3,11 @@ use std::ops::Deref;
 use std::rc::Rc;
 use std::slice;
 use std::iter::Map;
+#[cfg(not(feature = "verif-hooks"))]
 use std::collections::HashSet;
+#[cfg(feature = "verif-hooks")]
+#[allow(unused_imports)]
+use crate::verif_hooks::{HashSet, SimNew};
 use std::cmp::Ordering;
 use itertools::Itertools;
 use schemars::JsonSchema;
